@@ -1,4 +1,4 @@
--- GENERATED from /tmp/g7/repo-fix by /verif/extract (gvx) on every run: do not edit
+-- GENERATED from /repo by /verif/extract (gvx) on every run: do not edit
 namespace GV.Gen.Limits
 def segmentMaxPayloadLength : Nat := 65535 -- muxer.SegmentMaxPayloadLength
 def segmentProtocolIdResponseFlag : Nat := 32768 -- muxer.segmentProtocolIdResponseFlag
